@@ -252,6 +252,16 @@ Qed.
 Lemma step_claimerr_state cf w p d : fst (step cf w (IClaimError p d)) = w.
 Proof. cbn [step]. destruct (claims_live w); [|reflexivity]. destruct (claim_find _ _) as [c|]; [destruct (cl_state c)|]; reflexivity. Qed.
 
+Lemma step_pomerr_state cf w p d : fst (step cf w (IPomError p d)) = w.
+Proof. cbn [step]. destruct (w_phase w); reflexivity. Qed.
+
+Lemma hook_sim_pomerr cf w p d : hside w ->
+  accept hook_step (habs w) (snd (step cf w (IPomError p d))) = Some (habs (fst (step cf w (IPomError p d)))) /\ hside (fst (step cf w (IPomError p d))).
+Proof.
+  intros Hs. rewrite step_pomerr_state. split; [|exact Hs]. cbn [step].
+  unfold habs, late. destruct (w_phase w); try reflexivity; cbn; destruct (aborted w); reflexivity.
+Qed.
+
 Lemma hook_sim_claimerr cf w p d : hside w ->
   accept hook_step (habs w) (snd (step cf w (IClaimError p d))) = Some (habs (fst (step cf w (IClaimError p d)))) /\ hside (fst (step cf w (IClaimError p d))).
 Proof.
@@ -265,7 +275,7 @@ Lemma hook_sim cf w i : hside w ->
   accept hook_step (habs w) (snd (step cf w i)) = Some (habs (fst (step cf w i))) /\ hside (fst (step cf w i)).
 Proof.
   intros Hs. pose proof Hs as Hs0.
-  destruct i; try (now apply hook_sim_claimgo); try (now apply hook_sim_deliver); try (now apply hook_sim_claimret); try (now apply hook_sim_claimerr);
+  destruct i; try (now apply hook_sim_claimgo); try (now apply hook_sim_deliver); try (now apply hook_sim_claimret); try (now apply hook_sim_claimerr); try (now apply hook_sim_pomerr);
     try (now apply hook_sim_fetch); try (now apply hook_sim_cleanup); try (now apply hook_sim_commit).
   all: cbn [step]; destruct (w_phase w) eqn:Hph; try (cbn; split; [reflexivity | exact Hs0]).
   all: unfold retry_or, ret.
